@@ -16,6 +16,7 @@ import (
 	"reflect"
 	"runtime"
 	"runtime/debug"
+	"sync"
 	"time"
 	"unsafe"
 )
@@ -210,6 +211,19 @@ func NoteGlobal(tag uint64) {
 }
 
 var cur *Exec
+
+// resetHooks run when a controlled execution starts (shims with process-wide state, such
+// as pools, return to their initial state so that executions are independent).
+var resetHooks []func()
+
+// RegisterReset adds a hook run at the start of every controlled execution.
+func RegisterReset(f func()) {
+	resetMu.Lock()
+	resetHooks = append(resetHooks, f)
+	resetMu.Unlock()
+}
+
+var resetMu sync.Mutex
 
 // Cur returns the active execution or nil when running free.
 //
@@ -710,6 +724,9 @@ func Run(cfg Config, body func()) *Result {
 	}
 	e.points = make([]ChoicePoint, 64)
 	resetChanState()
+	for _, f := range resetHooks {
+		f()
+	}
 	if cfg.HB {
 		e.hb = true
 		e.objs = make(map[unsafe.Pointer]*objHash)
